@@ -142,8 +142,10 @@ class Run:
                              f"{len(v)} violations (floor {r.floor}; {r.functions} functions) - {r.title}")
             for note in r.notes:
                 out_lines.append(f"  note: {note}")
-            if len(r.obligations) < r.floor:
-                floors_broken.append(f"{r.rule}: {len(r.obligations)} obligations < floor {r.floor}")
+            import math
+            need = math.ceil(0.7 * r.floor)      # floor = count confirmed by reading; 30% slack so that a refactor that merges
+            if len(r.obligations) < need:        # or splits a few sites is judged on its merits instead of aborting the analysis
+                floors_broken.append(f"{r.rule}: {len(r.obligations)} obligations < {need} (70% of the {r.floor} confirmed by reading)")
             for o in v:
                 hit = next((k for k in known if k.get("rule") == o.rule
                             and o.key in ([k["key"]] if "key" in k else k.get("keys", []))), None)
